@@ -48,7 +48,7 @@ class _Job:
 def _okdir(s):
     return 1 <= len(s) <= 3 and "/" not in s and chr(0) not in s and s not in (".", "..")
 
-def _c27(docker, root, d1, d2, with_b, n_many, ws_excluded, check_tail=True):
+def _c27(docker, root, d1, d2, with_b, n_many, ws_excluded, check_tail=True, in_cache_root=False, dup=False):
     sp = _SP()
     saved = B.sp
     B.sp = sp
@@ -60,12 +60,14 @@ def _c27(docker, root, d1, d2, with_b, n_many, ws_excluded, check_tail=True):
         open(path, "w").close()
         return File(path)
     try:
-        fa = mk(IN + "%s/a.txt" % d1)
+        fa = mk((cache_root + "/a.txt") if in_cache_root else IN + "%s/a.txt" % d1)
         kw = {"a": fa}
         if with_b:
             kw["b"] = mk(IN + "%s/b.txt" % d2)
         if n_many:
             kw["many"] = [mk(IN + "%s/m%d.txt" % (d2 if i else d1, i)) for i in range(n_many)]
+            if dup:
+                kw["many"].append(kw["many"][0])        # the same file twice in one list input
         task = Cp(**kw)
         job = _Job(task, cache_root)
         env = (DK.Docker if docker else SG.Singularity)(image="img", tag="t", root=root)
@@ -102,6 +104,7 @@ def _c27(docker, root, d1, d2, with_b, n_many, ws_excluded, check_tail=True):
     for k in range(n_many):
         need(IN + "%s/m%d.txt" % (d2 if k else d1, k), "ro")
     want = {"%s:%s:%s" % (p, os.path.normpath(r + p), m) for p, m in want_binds.items()}
+    want = {w for w in want if not w.startswith(cache_root + ":")}
     want.add("%s:%s:rw" % (cache_root, os.path.normpath(r + str(cache_root))))
     got = set()
     for b in binds:
@@ -115,7 +118,7 @@ def _c27(docker, root, d1, d2, with_b, n_many, ws_excluded, check_tail=True):
         return "%s: working directory %r, expected %r" % (desc, workdir, r + str(job.cache_dir))
     if image != "img:t":
         return "%s: image %r" % (desc, image)
-    want_tail = [(os.path.normpath(r + x) if x.startswith(IN) else x) for x in native]
+    want_tail = [(os.path.normpath(r + x) if (x.startswith(IN) or x.startswith(cache_root + "/")) else x) for x in native]
     if check_tail and [os.path.normpath(x) if x.startswith("/") else x for x in tail] != want_tail:
         return "%s: command %r, expected the native argv with remapped paths %r" % (desc, tail, want_tail)
     return None
@@ -134,6 +137,11 @@ def build(tier, seed, exclude):
         g.cond(f"h_{'docker' if docker else 'singularity'}", "ri: int, d1: str, d2: str, with_b: bool, n_many: int", pre, f"""
             root = ["/mnt/pydra", "/r", "/r/", "/deep/er/root"][T.real(ri)]
             err = _c27({docker}, root, T.real(d1), T.real(d2), T.real(with_b), T.real(n_many), {ws})
+            return T.fail(err) if err else True
+        """, timeout=to)
+        g.cond(f"h_{'docker' if docker else 'singularity'}_placement", "ri: int, with_b: bool, n_many: int, in_root: bool, dup: bool", ["0 <= ri < 4 and 0 <= n_many <= 2"], f"""
+            root = ["/mnt/pydra", "/r", "/r/", "/deep/er/root"][T.real(ri)]
+            err = _c27({docker}, root, "x", "y", T.real(with_b), T.real(n_many), {ws}, in_cache_root=T.real(in_root), dup=T.real(dup))
             return T.fail(err) if err else True
         """, timeout=to)
     if True:
